@@ -20,12 +20,13 @@ import GormModel.Drv.C15
 import GormModel.Drv.C16
 import GormModel.Drv.C17
 import GormModel.Drv.C18
+import GormModel.Drv.C19
 import GormModel.Drv.C20
 open Lean Gorm Gorm.Drv
 
 def handle (args : Array Json) : Option Json := do
   let op ← jStr? (arg args 0)
-  (handleGen op args) <|> (handleC01 op args) <|> (handleC02 op args) <|> (handleC03 op args) <|> (handleC04 op args) <|> (handleC06 op args) <|> (handleC07 op args) <|> (handleC08 op args) <|> (handleC09 op args) <|> (handleC10 op args) <|> (handleC11 op args) <|> (handleC12 op args) <|> (handleC13 op args) <|> (handleC14 op args) <|> (handleC15 op args) <|> (handleC16 op args) <|> (handleC17 op args) <|> (handleC20 op args) <|> (handleC18 op args)
+  (handleGen op args) <|> (handleC01 op args) <|> (handleC02 op args) <|> (handleC03 op args) <|> (handleC04 op args) <|> (handleC06 op args) <|> (handleC07 op args) <|> (handleC08 op args) <|> (handleC09 op args) <|> (handleC10 op args) <|> (handleC11 op args) <|> (handleC12 op args) <|> (handleC13 op args) <|> (handleC14 op args) <|> (handleC15 op args) <|> (handleC16 op args) <|> (handleC17 op args) <|> (handleC20 op args) <|> (handleC18 op args) <|> (handleC19 op args)
 
 partial def loop (hin hout : IO.FS.Stream) : IO Unit := do
   let line ← hin.getLine
